@@ -461,14 +461,17 @@ def _dump_size(f, d):
         d["maxItems"] = f.maxItems
 
 
-def dump_class(cls, ctx=None):
+def dump_class(cls, ctx=None, order="signature"):
     """real Structure class -> model class declaration (JSON)"""
     ctx = ctx or Ctx()
     fields = cls.get_all_fields_by_name()
-    # fields in constructor-signature order (required parameters first, in the order the running
-    # interpreter iterates the `set` they come from): this is the order Structure.__init__ validates in
-    order = [n for n in cls.__signature__.parameters if n in fields]
-    fields = {n: fields[n] for n in order + [n for n in fields if n not in order]}
+    def_order = list(fields)
+    if order == "signature":
+        # fields in constructor-signature order (required parameters first, in the order the running
+        # interpreter iterates the `set` they come from): the order Structure.__init__ validates in
+        sig = [n for n in cls.__signature__.parameters if n in fields]
+        fields = {n: fields[n] for n in sig + [n for n in fields if n not in sig]}
+    # order == "definition": get_all_fields_by_name() order, the order deserialization works in
     d = {"k": "struct", "name": cls.__name__,
          "required": sorted(getattr(cls, "_required", [])),
          "addl": bool(getattr(cls, "_additional_properties",
